@@ -10,10 +10,10 @@ cmake -G Ninja -B _build -S . -DCMAKE_BUILD_TYPE=RelWithDebInfo -DCNTGS_BUILD_TE
 cmake --build _build --target cntgs-test-cpp17 cntgs-test-cpp20 2>&1 | grep -E "error|FAILED" | head -3
 T=$(ctest --test-dir _build -j8 -E '^cntgs-' 2>&1 | grep "tests passed")
 echo "tests with change: $T"
-g++ -std=c++17 -I $WT/src $SD/demo.cpp -o /tmp/demo_$ID$SFX 2>&1 | grep error | head -3
+g++ -std=${DEMO_STD:-c++17} -I $WT/src $SD/demo.cpp -o /tmp/demo_$ID$SFX 2>&1 | grep error | head -3
 /tmp/demo_$ID$SFX >/tmp/demo_out.txt 2>&1; echo "demo with change: exit $? ($(head -1 /tmp/demo_out.txt))"
 git stash -q
-g++ -std=c++17 -I $WT/src $SD/demo.cpp -o /tmp/demo_$ID$SFX 2>&1 | grep error | head -3
+g++ -std=${DEMO_STD:-c++17} -I $WT/src $SD/demo.cpp -o /tmp/demo_$ID$SFX 2>&1 | grep error | head -3
 /tmp/demo_$ID$SFX >/tmp/demo_out.txt 2>&1; echo "demo without change: exit $? ($(head -1 /tmp/demo_out.txt))"
 git stash pop -q
 rm -rf _build /tmp/demo_$ID$SFX
